@@ -161,6 +161,17 @@ CLAIMED = {
         "trusted: TLC; the right-continuous convention for the discontinuous third derivative at knots",
         "DESIGN.md 3 C14",
     ),
+    "C17": (
+        "spec/Regulariser.tla, spec/MC_Regulariser.tla (on Deriv)",
+        "energies (bending, curvature, diffusion, divergence, total variation, gradient, elasticity) as exact expressions of the analytic "
+        "derivatives of polynomial fields; conversion laws between all pairs of elastic constants and inverse-consistency of affine pairs "
+        "checked by TLC; the implementation's 'none' output is compared at interior probes, reductions/scaling/spacing/affine-invariance as "
+        "relations between evaluations; B-spline bending against the analytic spline energy",
+        "2-D/3-D polynomial fields x 4 derivative modes x 3 reductions; 7 parameter pairs x 4 materials; inverse consistency for exact and "
+        "non-inverse pairs x {cube, voxel, world} x both align_corners x {matrix, flow} arguments",
+        "trusted: TLC, Deriv (bound by C12); 'random smooth fields' only via the relational laws",
+        "DESIGN.md 3 C17",
+    ),
     "C19": (
         "spec/Batch.tla, spec/MC_Batch.tla, spec/Trace_Batch.tla",
         "TLA+ state machine over programs of torch operations: each operation is given by its mathematical effect on the item "
